@@ -41,3 +41,43 @@ pub fn l2_shape<P: Proto, const WHICH: u8, const SHAPE: u8, const SECOND: u8>() 
     core::mem::forget(r);
     core::mem::forget(b);
 }
+
+/// Compact keeps the value of a bool FIELD in reader state (`pending_read_bool_value`). After the
+/// field has been read, a bool that is NOT a field (a container element / bare value) must come
+/// from the wire. struct{1: bool FB} is read field by field, then a bare symbolic bool follows on
+/// the same reader (added after seed C01c). FB is concrete per instance: in compact it is part of
+/// the field-header byte.
+#[cfg(kani)]
+pub fn l2_boolfield_then_bool<P: Proto, const FB: bool>() {
+    let eb: bool = kani::any();
+    let mut out = BytesMut::with_capacity(16);
+    {
+        let mut w = P::writer(&mut out);
+        ok(w.write_struct_begin(&SID));
+        ok(w.write_field_begin(TType::Bool, 1));
+        ok(w.write_bool(FB));
+        ok(w.write_field_end());
+        ok(w.write_field_stop());
+        ok(w.write_struct_end());
+        ok(w.write_bool(eb));
+        P::finish(w);
+    }
+    let mut b = out.freeze();
+    let mut r = P::reader(&mut b);
+    ok(r.read_struct_begin());
+    let f = ok(r.read_field_begin());
+    kani::assert(f.field_type == TType::Bool && f.id == Some(1), "C01: bool field header read back");
+    let got_f = ok(r.read_bool());
+    kani::assert(got_f == FB, "C01: bool field value read back");
+    ok(r.read_field_end());
+    let s = ok(r.read_field_begin());
+    kani::assert(s.field_type == TType::Stop, "C01: stop read back");
+    ok(r.read_struct_end());
+    let got_e = ok(r.read_bool());
+    kani::assert(got_e == eb, "C01: a following value on the same buffer is read as if the reader were fresh");
+    kani::assert(P::remaining(&mut r) == 0, "C01: reader consumed exactly the bytes written");
+    kani::cover!(FB != eb, "field bool differs from the following bool");
+    kani::cover!(true, "reached end");
+    core::mem::forget(r);
+    core::mem::forget(b);
+}
